@@ -1,14 +1,187 @@
-/-
-  Sipsp.Proofs.ShiftParams — position independence (C11) of ParseTokenParam and of the URI parameter / header list
-  wrappers (work in progress header, replaced at the end).
--/
 import Sipsp.Proofs.ShiftNA
 import Sipsp.Proofs.SafeRest
-
 namespace Sipsp
 
-/-! ### SkipQuoted -/
+def spTpLive : TPState → Bool
+  | .init | .err => false
+  | _ => true
 
+def shTp (k : Nat) (p : PTokParam) : PTokParam :=
+  { p with all := if spTpLive p.state then shF k p.all else p.all,
+           name := if spTpLive p.state then shF k p.name else p.name,
+           val := shP k p.val }
+
+def spTpNz (p : PTokParam) : PTokParam := if p.state = .err then { p with all := {}, name := {} } else p
+
+theorem shTp_state (k : Nat) (p : PTokParam) : (shTp k p).state = p.state := rfl
+theorem shTp_pnc (k : Nat) (p : PTokParam) : (shTp k p).pnc = p.pnc := rfl
+theorem shTp_new (k : Nat) : shTp k {} = {} := rfl
+
+theorem shTp_st (k : Nat) (p : PTokParam) (s : TPState) (h : spTpLive s = spTpLive p.state) :
+    { shTp k p with state := s } = shTp k { p with state := s } := by
+  simp only [shTp, h]
+
+theorem shTp_st_err (k : Nat) (p : PTokParam) :
+    spTpNz { shTp k p with state := .err } = spTpNz (shTp k { p with state := .err }) := by
+  simp only [shTp, spTpNz, ↓reduceIte]
+
+theorem shTp_sna (k : Nat) (p : PTokParam) (i : Nat) (s : TPState) (hs : spTpLive s = true) (h : k + i ≤ 65535) :
+    { shTp k p with state := s, name := PField.set (k + i) (k + i), all := PField.set (k + i) (k + i) } =
+      shTp k { p with state := s, name := PField.set i i, all := PField.set i i } := by
+  simp only [shTp, hs, ↓reduceIte, set_shift k i i h]
+
+theorem shTp_extName (k : Nat) (p : PTokParam) (e : Nat) (hl : spTpLive p.state = true) (h : k + e ≤ 65535)
+    (ho : p.name.offs ≤ e) : (shTp k p).extName (k + e) = shTp k (p.extName e) := by
+  simp only [shTp, hl, ↓reduceIte, PTokParam.extName, extend_shift k p.name e h ho, extendPanics_shift]
+
+theorem shTp_extAll (k : Nat) (p : PTokParam) (e : Nat) (hl : spTpLive p.state = true) (h : k + e ≤ 65535)
+    (ho : p.all.offs ≤ e) : (shTp k p).extAll (k + e) = shTp k (p.extAll e) := by
+  simp only [shTp, hl, ↓reduceIte, PTokParam.extAll, extend_shift k p.all e h ho, extendPanics_shift]
+
+theorem shTp_extVal (k : Nat) (p : PTokParam) (e : Nat) (h : k + e ≤ 65535)
+    (ho : p.val.offs ≤ e) (h0 : p.val.offs ≠ 0) : (shTp k p).extVal (k + e) = shTp k (p.extVal e) := by
+  simp only [shTp, PTokParam.extVal, shP_extend k p.val e h ho h0, shP_extendPanics]
+  rfl
+
+theorem shTp_setVal (k : Nat) (p : PTokParam) (i : Nat) (h : k + i ≤ 65535) (h1 : 1 ≤ i) :
+    { shTp k p with val := PField.set (k + i) (k + i) } = shTp k { p with val := PField.set i i } := by
+  have : shP k (PField.set i i) = shF k (PField.set i i) := by
+    unfold shP; rw [if_neg]; unfold PField.set trunc16; simp only; omega
+  simp only [shTp, this, set_shift k i i h]
+
+structure SpTpPos (i : Nat) (p : PTokParam) : Prop where
+  fv : p.state = .fVal → 1 ≤ i
+  vo : p.state = .val ∨ p.state = .quotedVal → 1 ≤ p.val.offs
+
+theorem spTpEOH_shift (k : Nat) (p : PTokParam) (n crl : Nat) :
+    resN spTpNz (tpEOH (shTp k p) (k + n) crl) = resN spTpNz (shResD k (fun _ => shTp k) (tpEOH p n crl)) := by
+  unfold tpEOH
+  rw [shTp_state]
+  cases hst : p.state <;> simp only [resN, shResD, Nat.add_assoc]
+  all_goals first
+    | rw [shTp_st k p _ (by rw [hst]; rfl)]
+    | rw [shTp_st_err]
+
+theorem spTp_extNA (k : Nat) (p : PTokParam) (i j : Nat) (hl : spTpLive p.state = true) (hS : SrTpIn i p)
+    (hij : i ≤ j) (hj : k + j ≤ 65535) :
+    ((shTp k p).extName (k + i)).extAll (k + j) = shTp k ((p.extName i).extAll j) := by
+  have h1 : p.name.offs + p.name.len ≤ i := hS.name
+  have h2 : p.all.offs + p.all.len ≤ i := hS.all
+  rw [shTp_extName k p i hl (by omega) (by omega)]
+  exact shTp_extAll k (p.extName i) j hl hj (by show p.all.offs ≤ j; omega)
+
+theorem spTp_extVA (k : Nat) (p : PTokParam) (i : Nat) (hl : spTpLive p.state = true) (hS : SrTpIn i p)
+    (hv : 1 ≤ p.val.offs) (hj : k + i ≤ 65535) :
+    ((shTp k p).extVal (k + i)).extAll (k + i) = shTp k ((p.extVal i).extAll i) := by
+  have h1 : p.val.offs + p.val.len ≤ i := hS.val
+  have h2 : p.all.offs + p.all.len ≤ i := hS.all
+  rw [shTp_extVal k p i hj (by omega) (by omega)]
+  exact shTp_extAll k (p.extVal i) i hl hj (by show p.all.offs ≤ i; omega)
+
+theorem spTpMoreBytes_shift (pre t : Buf) (flags : Nat) (p : PTokParam) (i : Nat) (hfit : pre.size + t.size ≤ 65535)
+    (hi : i ≤ t.size) (hS : SrTpIn i p) (hP : SpTpPos i p) :
+    resN spTpNz (tpMoreBytes (pre ++ t) flags (shTp pre.size p) (pre.size + i)) =
+      resN spTpNz (shResD pre.size (fun _ => shTp pre.size) (tpMoreBytes t flags p i)) := by
+  unfold tpMoreBytes
+  rw [shTp_state, Array.size_append]
+  split
+  · cases hst : p.state <;> simp only
+    case name =>
+      rw [spTp_extNA pre.size p i i (by rw [hst]; rfl) hS (Nat.le_refl _) (by omega)]
+      exact spTpEOH_shift _ _ _ _
+    case val =>
+      rw [spTp_extVA pre.size p i (by rw [hst]; rfl) hS (hP.vo (Or.inl hst)) (by omega)]
+      exact spTpEOH_shift _ _ _ _
+    all_goals first
+      | exact spTpEOH_shift _ _ _ _
+      | rfl
+  · rfl
+theorem spStepOfRes (k : Nat) (r' r : Nat × Err × PTokParam)
+    (h : resN spTpNz r' = resN spTpNz (shResD k (fun _ => shTp k) r)) :
+    stepN spTpNz (stepOfRes r') = stepN spTpNz (shStepD k (shTp k) (fun _ => shTp k) (stepOfRes r)) := by
+  rcases r' with ⟨a, b, c⟩
+  rcases r with ⟨a2, b2, c2⟩
+  simp only [resN, shResD, Prod.mk.injEq] at h
+  obtain ⟨rfl, rfl, h3⟩ := h
+  simp only [stepOfRes, stepN, shStepD, h3]
+
+theorem spTpLWS_shift (pre t : Buf) (flags i : Nat) (p : PTokParam) (upd upd' : PTokParam → PTokParam)
+    (hfit : pre.size + t.size ≤ 65535) (hi : i ≤ t.size) (hS : SrTpIn i p) (hP : SpTpPos i p)
+    (hu : upd' (shTp pre.size p) = shTp pre.size (upd p)) :
+    stepN spTpNz (tpLWS (pre ++ t) flags (pre.size + i) (shTp pre.size p) upd') =
+      stepN spTpNz (shStepD pre.size (shTp pre.size) (fun _ => shTp pre.size) (tpLWS t flags i p upd)) := by
+  unfold tpLWS
+  rw [skipLWS_shift]
+  rcases hq : skipLWS t i flags with ⟨n, crl, e⟩
+  cases e <;> simp only [hu]
+  case moreBytes => exact spStepOfRes _ _ _ (spTpMoreBytes_shift pre t flags p i hfit hi hS hP)
+  case eoh => exact spStepOfRes _ _ _ (spTpEOH_shift _ _ _ _)
+  all_goals rfl
+theorem spC (k i : Nat) (X Y : PTokParam) (h : X = shTp k Y) :
+    stepN spTpNz (.cont (k + i) X) = stepN spTpNz (shStepD k (shTp k) (fun _ => shTp k) (.cont i Y)) := by
+  subst h; rfl
+
+theorem spD (k i : Nat) (e : Err) (X Y : PTokParam) (h : spTpNz X = spTpNz (shTp k Y)) :
+    stepN spTpNz (.done (k + i) e X) = stepN spTpNz (shStepD k (shTp k) (fun _ => shTp k) (.done i e Y)) := by
+  simp only [stepN, shStepD, h]
+
+theorem spTp_extNA_st (k : Nat) (p : PTokParam) (i j : Nat) (s : TPState) (hl : spTpLive p.state = true)
+    (hs : spTpLive s = true) (hS : SrTpIn i p) (hij : i ≤ j) (hj : k + j ≤ 65535) :
+    { ((shTp k p).extName (k + i)).extAll (k + j) with state := s } =
+      shTp k { (p.extName i).extAll j with state := s } := by
+  rw [spTp_extNA k p i j hl hS hij hj]
+  exact shTp_st k _ s (by rw [hs]; exact hl.symm)
+
+theorem spTp_extVA_st (k : Nat) (p : PTokParam) (i : Nat) (s : TPState) (hl : spTpLive p.state = true)
+    (hs : spTpLive s = true) (hS : SrTpIn i p) (hv : 1 ≤ p.val.offs) (hj : k + i ≤ 65535) :
+    { ((shTp k p).extVal (k + i)).extAll (k + i) with state := s } =
+      shTp k { (p.extVal i).extAll i with state := s } := by
+  rw [spTp_extVA k p i hl hS hv hj]
+  exact shTp_st k _ s (by rw [hs]; exact hl.symm)
+
+theorem spTp_setVA_st (k : Nat) (p : PTokParam) (i : Nat) (s : TPState) (hl : spTpLive p.state = true)
+    (hs : spTpLive s = true) (hS : SrTpIn i p) (h1 : 1 ≤ i) (hj : k + i ≤ 65535) :
+    { ({ shTp k p with val := PField.set (k + i) (k + i) } : PTokParam).extAll (k + i) with state := s } =
+      shTp k { ({ p with val := PField.set i i } : PTokParam).extAll i with state := s } := by
+  have h2 : p.all.offs + p.all.len ≤ i := hS.all
+  rw [shTp_setVal k p i hj h1]
+  have e := shTp_extAll k { p with val := PField.set i i } i hl hj (by show p.all.offs ≤ i; omega)
+  simp only [e]
+  exact shTp_st k _ s (by rw [hs]; exact hl.symm)
+
+theorem spTp_setV_st (k : Nat) (p : PTokParam) (i : Nat) (s : TPState) (hl : spTpLive p.state = true)
+    (hs : spTpLive s = true) (h1 : 1 ≤ i) (hj : k + i ≤ 65535) :
+    { shTp k p with val := PField.set (k + i) (k + i), state := s } =
+      shTp k { p with val := PField.set i i, state := s } := by
+  have := shTp_st k { p with val := PField.set i i } s (by rw [hs]; exact hl.symm)
+  rw [← shTp_setVal k p i hj h1] at this
+  exact this
+
+theorem spTpSpTermEq_shift (k o0 i : Nat) (p : PTokParam) (hl : spTpLive p.state = true) :
+    stepN spTpNz (tpSpTermEq (k + o0) (k + i) (shTp k p)) =
+      stepN spTpNz (shStepD k (shTp k) (fun _ => shTp k) (tpSpTermEq o0 i p)) := by
+  unfold tpSpTermEq
+  rw [shTp_st k p .fin (by rw [hl]; rfl)]
+  by_cases h : i ≥ o0 + 1
+  · rw [if_pos h, if_pos (by omega)]
+    have : k + i - 1 = k + (i - 1) := by omega
+    rw [this]; rfl
+  · rw [if_neg h, if_neg (by omega)]; rfl
+
+theorem spTpSpTermSep_shift (pre t : Buf) (o0 i : Nat) (p : PTokParam) (hl : spTpLive p.state = true) :
+    stepN spTpNz (tpSpTermSep (pre ++ t) (pre.size + o0) (pre.size + i) (shTp pre.size p)) =
+      stepN spTpNz (shStepD pre.size (shTp pre.size) (fun _ => shTp pre.size) (tpSpTermSep t o0 i p)) := by
+  unfold tpSpTermSep
+  simp only
+  rw [shTp_st pre.size p .fin (by rw [hl]; rfl)]
+  by_cases h : i ≥ o0 + 1
+  · rw [if_pos h, if_pos (by omega)]
+    have e1 : pre.size + i - 1 = pre.size + (i - 1) := by omega
+    rw [e1, get?_shift]
+    cases t[i - 1]? with
+    | none => rfl
+    | some c => simp only; split <;> rfl
+  · rw [if_neg h, if_neg (by omega)]; rfl
 theorem spSqStep_shift (pre t : Buf) (i : Nat) (c : UInt8) :
     sqStep (pre ++ t) (pre.size + i) c () = shStep pre.size id (sqStep t i c ()) := by
   unfold sqStep
@@ -42,4 +215,218 @@ theorem skipQuoted_shift (pre t : Buf) (i : Nat) :
   rw [this]
   rfl
 
+theorem spBeq1 : (TPState.init == TPState.fNxt) = false := by decide
+theorem spBeq2 : (TPState.initNxtVal == TPState.fNxt) = false := by decide
+theorem spBeq3 : (TPState.fNxt == TPState.fNxt) = true := by decide
+
+theorem spIte (k : Nat) (cnd : Prop) [Decidable cnd] (a b a' b' : Step PTokParam)
+    (h1 : stepN spTpNz a = stepN spTpNz (shStepD k (shTp k) (fun _ => shTp k) a'))
+    (h2 : stepN spTpNz b = stepN spTpNz (shStepD k (shTp k) (fun _ => shTp k) b')) :
+    stepN spTpNz (if cnd then a else b) =
+      stepN spTpNz (shStepD k (shTp k) (fun _ => shTp k) (if cnd then a' else b')) := by
+  split <;> assumption
+
+theorem spTpStep_shift (flags o0 : Nat) (pre t : Buf) (i : Nat) (c : UInt8) (p : PTokParam) (hb : t[i]? = some c)
+    (hfit : pre.size + t.size ≤ 65535) (hS : SrTpSafe t o0 i p) (hP : SpTpPos i p) :
+    stepN spTpNz (tpStep flags (pre.size + o0) (pre ++ t) (pre.size + i) c (shTp pre.size p)) =
+      stepN spTpNz (shStepD pre.size (shTp pre.size) (fun _ => shTp pre.size) (tpStep flags o0 t i c p)) := by
+  have hlt := get?_lt hb
+  have hf := hS.fl
+  have hi : i ≤ t.size := hS.hi
+  have hk : pre.size + i ≤ 65535 := by omega
+  have hk1 : pre.size + (i + 1) ≤ 65535 := by omega
+  have hii : i ≤ i := Nat.le_refl i
+  have his : i ≤ i + 1 := Nat.le_succ i
+  unfold tpStep
+  simp only [shTp_state, Nat.add_assoc]
+  cases hst : p.state <;> simp only
+  case quotedVal =>
+    rw [skipQuoted_shift]
+    rcases hq : skipQuoted t i with ⟨n, e⟩
+    have h2 := skipQuoted_range t i (by omega) hq
+    have hv := hP.vo (Or.inr hst)
+    cases e <;> simp only
+    case moreBytes =>
+      exact spStepOfRes _ _ _ (spTpMoreBytes_shift pre t flags p n hfit h2.2 (hf.mono h2.1)
+        ⟨(fun h => by rw [hst] at h; cases h), fun _ => hv⟩)
+    case ok =>
+      rw [spTp_extVA pre.size p n (by rw [hst]; rfl) (hf.mono h2.1) hv (by omega)]
+      exact spC _ _ _ _ (shTp_st _ _ _ (by show _ = spTpLive p.state; rw [hst]; rfl))
+    case eoh => exact spStepOfRes _ _ _ (spTpEOH_shift _ _ _ _)
+    all_goals rfl
+  case err => exact spC _ _ _ _ rfl
+  case fin => exact spC _ _ _ _ rfl
+  all_goals
+    by_cases hl : isLWSch c = true
+    · simp only [hl, ↓reduceIte]
+      first
+        | exact spTpLWS_shift pre t flags i p id id hfit hi hf hP rfl
+        | exact spTpLWS_shift pre t flags i p _ _ hfit hi hf hP
+            (spTp_extNA_st _ _ _ _ _ (by rw [hst]; rfl) rfl hf hii hk)
+        | exact spTpLWS_shift pre t flags i p _ _ hfit hi hf hP
+            (spTp_extVA_st _ _ _ _ (by rw [hst]; rfl) rfl hf (hP.vo (Or.inl hst)) hk)
+    · simp only [hl, Bool.false_eq_true, ↓reduceIte]
+      try simp only [spBeq1, spBeq2, spBeq3, Bool.false_and, Bool.true_and, Bool.false_eq_true, ↓reduceIte]
+      repeat' (with_reducible apply spIte)
+      all_goals first
+        | exact spC _ _ _ _ rfl
+        | exact spC _ _ _ _ (shTp_st _ _ _ (by rw [hst]; rfl))
+        | exact spC _ _ _ _ (shTp_sna _ _ _ _ rfl hk)
+        | exact spC _ _ _ _ (spTp_extNA_st _ _ _ _ _ (by rw [hst]; rfl) rfl hf (by omega) (by omega))
+        | exact spC _ _ _ _ (spTp_extVA_st _ _ _ _ (by rw [hst]; rfl) rfl hf (hP.vo (Or.inl hst)) hk)
+        | exact spC _ _ _ _ (spTp_setVA_st _ _ _ _ (by rw [hst]; rfl) rfl hf (hP.fv hst) hk)
+        | exact spD _ _ _ _ _ (congrArg spTpNz (shTp_st _ _ _ (by rw [hst]; rfl)))
+        | exact spD _ _ _ _ _ (congrArg spTpNz (spTp_extNA_st _ _ _ _ _ (by rw [hst]; rfl) rfl hf (by omega) (by omega)))
+        | exact spD _ _ _ _ _ (congrArg spTpNz (spTp_extVA_st _ _ _ _ (by rw [hst]; rfl) rfl hf (hP.vo (Or.inl hst)) hk))
+        | exact spD _ _ _ _ _ (congrArg spTpNz (spTp_setV_st _ _ _ _ (by rw [hst]; rfl) rfl (hP.fv hst) hk))
+        | exact spD _ _ _ _ _ (shTp_st_err _ _)
+        | exact spTpSpTermEq_shift _ _ _ _ (by rw [hst]; rfl)
+        | exact spTpSpTermSep_shift _ _ _ _ _ (by rw [hst]; rfl)
+
+theorem SpTpPos.mono {i j : Nat} {p : PTokParam} (h : SpTpPos i p) (hij : i ≤ j) : SpTpPos j p :=
+  ⟨fun hs => by have := h.fv hs; omega, h.vo⟩
+
+theorem SpTpPos.new (i : Nat) : SpTpPos i {} :=
+  ⟨(fun h => nomatch h), fun h => h.elim (fun h => nomatch h) (fun h => nomatch h)⟩
+
+theorem spTpLWS_pos (b : Buf) (flags i : Nat) (p : PTokParam) (upd : PTokParam → PTokParam)
+    (hu : ∀ n, i ≤ n → SpTpPos n (upd p)) :
+    StepAll2 SpTpPos (fun _ _ _ => True) (tpLWS b flags i p upd) := by
+  unfold tpLWS
+  rcases hsk : skipLWS b i flags with ⟨n, crl, e⟩
+  have hr := skipLWS_range b i flags hsk
+  cases e <;> simp only [stepOfRes] <;> first | trivial | exact hu n hr.1
+
+theorem spSetOffs (i : Nat) (h1 : 1 ≤ i) (h2 : i ≤ 65535) : 1 ≤ (PField.set i i).offs := by
+  unfold PField.set trunc16; simp only; omega
+
+def spIsFVal : TPState → Bool
+  | .fVal => true
+  | _ => false
+def spIsV : TPState → Bool
+  | .val | .quotedVal => true
+  | _ => false
+
+theorem spPos_vac (n : Nat) (q : PTokParam) (h1 : spIsFVal q.state = false) (h2 : spIsV q.state = false) :
+    SpTpPos n q := by
+  refine ⟨fun h => ?_, fun h => ?_⟩
+  · rw [h] at h1; cases h1
+  · rcases h with h | h <;> rw [h] at h2 <;> cases h2
+
+theorem spPos_fv (n : Nat) (q : PTokParam) (h2 : spIsV q.state = false) (hn : 1 ≤ n) : SpTpPos n q := by
+  refine ⟨fun _ => hn, fun h => ?_⟩
+  rcases h with h | h <;> rw [h] at h2 <;> cases h2
+
+theorem spPos_v (n : Nat) (q : PTokParam) (h1 : spIsFVal q.state = false) (hv : 1 ≤ q.val.offs) : SpTpPos n q := by
+  refine ⟨fun h => ?_, fun _ => hv⟩
+  rw [h] at h1; cases h1
+
+theorem spTpStep_pos (flags o0 : Nat) (b : Buf) (i : Nat) (c : UInt8) (p : PTokParam) (hb : b[i]? = some c)
+    (hfit : b.size ≤ 65535) (hP : SpTpPos i p) :
+    StepAll2 SpTpPos (fun _ _ _ => True) (tpStep flags o0 b i c p) := by
+  have hlt := get?_lt hb
+  have hi5 : i ≤ 65535 := by omega
+  unfold tpStep
+  simp only
+  cases hst : p.state <;> simp only
+  case quotedVal =>
+    rcases hq : skipQuoted b i with ⟨n, e⟩
+    cases e <;> simp only [stepOfRes]
+    case ok => exact spPos_vac _ _ rfl rfl
+    all_goals trivial
+  case err => exact hP.mono (Nat.le_succ i)
+  case fin => exact hP.mono (Nat.le_succ i)
+  all_goals
+    by_cases hl : isLWSch c = true
+    · simp only [hl, ↓reduceIte]
+      first
+        | exact spTpLWS_pos b flags i p id (fun n hn => hP.mono hn)
+        | exact spTpLWS_pos b flags i p _ (fun n hn => spPos_vac _ _ rfl rfl)
+    · simp only [hl, Bool.false_eq_true, ↓reduceIte]
+      repeat' split
+      all_goals first
+        | trivial
+        | exact hP.mono (Nat.le_succ i)
+        | exact spPos_vac _ _ rfl rfl
+        | exact spPos_fv _ _ rfl (Nat.succ_le_succ (Nat.zero_le i))
+        | exact spPos_v _ _ rfl (spSetOffs i (hP.fv hst) hi5)
+        | (unfold tpSpTermEq; split <;> trivial)
+        | (unfold tpSpTermSep; simp only; repeat' split
+           all_goals trivial)
+
+/-! ### generic loop theorem, two machines (the token-parameter machine depends on the start offset of the call) -/
+
+theorem spRunLoop_shiftN2 {σ : Type} (m m' : Machine σ) (pre t : Buf) (sh : σ → σ) (shD : Err → σ → σ) (nz : σ → σ)
+    (Inv : Nat → σ → Prop)
+    (hinv : ∀ i c st i' st', t[i]? = some c → Inv i st → m.step t i c st = .cont i' st' → i < i' → Inv i' st')
+    (hprog : ∀ i c st i' st', t[i]? = some c → Inv i st → m.step t i c st = .cont i' st' → i < i')
+    (hstep : ∀ i c st, t[i]? = some c → Inv i st →
+      stepN nz (m'.step (pre ++ t) (pre.size + i) c (sh st)) = stepN nz (shStepD pre.size sh shD (m.step t i c st)))
+    (heob : ∀ i st, t[i]? = none → Inv i st →
+      resN nz (m'.eob (pre ++ t) (pre.size + i) (sh st)) = resN nz (shResD pre.size shD (m.eob t i st)))
+    (i : Nat) (st : σ) (hI : Inv i st) :
+    resN nz (runLoop m' (pre ++ t) (pre.size + i) (sh st)) = resN nz (shResD pre.size shD (runLoop m t i st)) := by
+  induction hk : t.size - i using Nat.strongRecOn generalizing i st with
+  | _ k ih =>
+    cases hb : t[i]? with
+    | none =>
+      rw [runLoop_none m st hb, runLoop_none m' (sh st) (by rw [get?_shift]; exact hb)]
+      exact heob i st hb hI
+    | some c =>
+      have hbB : (pre ++ t)[pre.size + i]? = some c := by rw [get?_shift]; exact hb
+      have hs := hstep i c st hb hI
+      cases hq : m.step t i c st with
+      | done o e st' =>
+        rw [hq] at hs
+        rw [runLoop_done m hb hq]
+        cases hqB : m'.step (pre ++ t) (pre.size + i) c (sh st) with
+        | cont i2 st2 => rw [hqB] at hs; simp only [stepN, shStepD] at hs; cases hs
+        | done o2 e2 st2 =>
+          rw [hqB] at hs
+          simp only [stepN, shStepD, Step.done.injEq] at hs
+          obtain ⟨rfl, rfl, h3⟩ := hs
+          rw [runLoop_done m' hbB hqB]
+          simp only [resN, shResD]
+          rw [h3]
+      | cont i' st' =>
+        rw [hq] at hs
+        have hlt : i < i' := hprog i c st i' st' hb hI hq
+        simp only [stepN, shStepD] at hs
+        cases hqB : m'.step (pre ++ t) (pre.size + i) c (sh st) with
+        | done o2 e2 st2 => rw [hqB] at hs; simp only at hs; cases hs
+        | cont i2 st2 =>
+          rw [hqB] at hs
+          simp only [Step.cont.injEq] at hs
+          obtain ⟨rfl, rfl⟩ := hs
+          rw [runLoop_cont m hb hq, runLoop_cont m' hbB hqB, if_pos hlt, if_pos (by omega)]
+          have := get?_lt hb
+          exact ih (t.size - i') (by omega) i' st' (hinv i c st i' st' hb hI hq hlt) rfl
+
+/-! ### ParseTokenParam -/
+
+/-- legitimate argument of ParseTokenParam at offset `o` for the shift theorem -/
+def SpTpEntry (o : Nat) (p : PTokParam) : Prop := SrTpIn o p ∧ SpTpPos o p
+
+theorem SpTpEntry.new (o : Nat) : SpTpEntry o {} := ⟨SrTpIn.new o, SpTpPos.new o⟩
+
+theorem parseTokenParam_shiftN (pre t : Buf) (o : Nat) (p : PTokParam) (flags : Nat)
+    (hfit : pre.size + t.size ≤ 65535) (ho : o ≤ t.size) (hE : SpTpEntry o p) :
+    resN spTpNz (parseTokenParam (pre ++ t) (pre.size + o) (shTp pre.size p) flags) =
+      resN spTpNz (shRes pre.size (shTp pre.size) (parseTokenParam t o p flags)) := by
+  unfold parseTokenParam
+  rw [shTp_state]
+  split
+  · rfl
+  · exact spRunLoop_shiftN2 (tpMachine flags o) (tpMachine flags (pre.size + o)) pre t (shTp pre.size) (fun _ => shTp pre.size) spTpNz
+      (fun i q => SrTpSafe t o i q ∧ SpTpPos i q)
+      (fun i c q i' q' hb hI hs hlt => by
+        have h1 := srTpStep_safe flags o t i c q hb hI.1
+        have h2 := spTpStep_pos flags o t i c q hb (by omega) hI.2
+        change tpStep flags o t i c q = _ at hs
+        rw [hs] at h1 h2
+        exact ⟨h1, h2⟩)
+      (fun i c q i' q' hb _ hs => tp_progress flags o t i c q i' q' hb hs)
+      (fun i c q hb hI => spTpStep_shift flags o pre t i c q hb hfit hI.1 hI.2)
+      (fun i q _ hI => spTpMoreBytes_shift pre t flags q i hfit hI.1.hi hI.1.fl hI.2)
+      o p ⟨⟨Nat.le_refl _, ho, hE.1⟩, hE.2⟩
 end Sipsp
